@@ -317,7 +317,7 @@ def run(prog, tier):
                          f"the mode must be the bounded minimiser of -density over an interval taken from the sample; returned term: "
                          f"`{U(rets[0])[:300] if rets else None}`", KDE, lm.lineno, slots={"bounds": bb}))
     from .common import final_state_obligations
-    obs.extend(final_state_obligations(prog, "mode-is-argmax", "UnimodalPdf", UNI, {"MAP"}))
+    obs.extend(final_state_obligations(prog, "mode-is-argmax", "UnimodalPdf", UNI, {"MAP", "sd", "n_nodes", "u", "w"}))
     uc = prog.cls("UnimodalPdf")
     init = uc.methods["__init__"]
     # on every path through the constructor, the last assignment of MAP is followed by mode = MAP[0] and by the normaliser
